@@ -265,4 +265,4 @@ def find_status(r, ret):
 
 def compatible(env, t1, v1, t2, v2):
     e = env.copy()
-    return e.assume_eq(t1, v1) and e.assume_eq(t2, v2)
+    return e.assume_eq(t1, v1) and e.assume_eq(t2, v2) and e.consistent()
